@@ -131,10 +131,12 @@ def refusal_histories(ctx, digital_rf, count):
     rng = ctx.rng
     for i in range(count):
         n, d, fc = cg.random_rate(rng, 300)
-        sc_ms = fc * rng.choice([1, 2, 5])
+        sc_ms = fc * (rng.choice([1, 2, 5]) if i % 4 != 3 else 10)
         while sc_ms % 1000:
             sc_ms += fc
         t0 = (rng.randint(315532800, 4102444800) * 1000) // fc * fc
+        if i % 4 == 3:
+            t0 = t0 // sc_ms * sc_ms       # the hole variant: all windows in one subdirectory
         mode = ["gapped", "contU", "contC"][i % 3]
         cfg = cd.ChanConfig(n, d, fc, sc_ms // 1000, np.dtype(rng.choice(["<i2", ">f4", "<u1", ">i8"])), bool(i % 2), 1 + i % 2, mode, t0, 7, seed=i)
         root = os.path.join(ctx.work, "chan")
@@ -143,9 +145,17 @@ def refusal_histories(ctx, digital_rf, count):
         ch = cd.Channel(digital_rf, root, cfg, [cfg.params()])
         b = cfg.bound
         k = rng.choice([2, 3])           # window finalized by session 1 (1-based)
-        ch.open(1, b[k - 1], 1)
-        ch.write([[b[k - 1], max(1, (b[k] - b[k - 1]) - rng.choice([0, 0, 1]))]])
-        ch.close()
+        hole = i % 4 == 3                # session 1 also leaves an earlier file: the later session starts in the hole between
+        if hole:
+            k = 3
+            ch.open(1, b[0], 1)
+            ch.write([[b[0], max(1, b[1] - b[0] - rng.choice([0, 1]))]])
+            ch.write([[b[k - 1], max(1, (b[k] - b[k - 1]) - rng.choice([0, 0, 1]))]])
+            ch.close()
+        else:
+            ch.open(1, b[k - 1], 1)
+            ch.write([[b[k - 1], max(1, (b[k] - b[k - 1]) - rng.choice([0, 0, 1]))]])
+            ch.close()
         s0 = b[k - 2] + rng.randint(0, b[k - 1] - b[k - 2] - 1)
         ch.open(1, s0, 1)
         if rng.random() < 0.7:
